@@ -104,6 +104,10 @@ def population(world):
                     for j, row in enumerate(v):
                         if isinstance(row, TraitList):
                             cont(uid, "grid[%d][]" % j, row)
+                if name == "shelf":
+                    for key, row in sorted(v.items()):
+                        if isinstance(row, TraitList):
+                            cont(uid, "shelf[%s][]" % key, row)
     return pop
 
 
@@ -860,6 +864,9 @@ class Prop:
                     todo.extend(m.table.values())
                 if m.grid is not G.UNSET:
                     for row in m.grid:
+                        todo.extend(row)
+                if m.shelf is not G.UNSET:
+                    for row in m.shelf.values():
                         todo.extend(row)
             for ref, m in world.dropped:
                 alive = ref() is not None
